@@ -18,6 +18,7 @@ from mc import core
 from mc.canon import canon_list, val, NAN
 
 ID = "C16"
+LARGE = dict(quick="40-row lists for every class; 1500-row lists (unsorted and sorted) for four representative classes", thorough="40- and 1500-row lists for every class")
 TITLE = "Timed lists behave like ordered collections of their rows"
 RULE = (
     "history BFS: state = canonical TimedList (class, columns, dtypes, row labels, exact cells) reached from a constructor by a "
